@@ -660,7 +660,7 @@ func (x *txnCtx) avoidWrite(off uint32, col ColSpec, kind mopKind) (mopKind, boo
 		}
 	}
 	if kind == mMerge {
-		if _, ok := w.model.Get(off, col.Name); !ok && !x.wrote(off, col.Name) {
+		if _, ok := w.model.Get(off, col.Name); !ok && !x.wrote(off, col.Name) && (w.model.Touched[off][col.Name] || w.conc != nil && !w.isStable(off)) {
 			if w.avoid["merge-absent"] {
 				return mPut, true // the row holds nothing in the column: the stale slot of a previous occupant would be merged
 			}
@@ -683,4 +683,15 @@ func (x *txnCtx) noteTTLWrite() {
 		x.ttlPending = true
 		x.w.ttl.pendingTTL++
 	}
+}
+
+// isStable reports whether the offset is one of the set-up rows of a concurrent world
+// (never deleted, so an untouched slot of it stays untouched until somebody stores into it).
+func (w *World) isStable(off uint32) bool {
+	for _, o := range w.conc.stable {
+		if o == off {
+			return true
+		}
+	}
+	return false
 }
